@@ -586,8 +586,9 @@ func scenarios(quick bool) []scenario {
 	out := []scenario{{Edits: 1, Limit: 0, Classes: two, Flaky: []string{"a"}}, {Edits: 1, Limit: -1, Classes: two, Flaky: []string{"c"}}, {Edits: 1, Limit: 0, Classes: []string{"ready"}, Flaky: []string{}, Conflicts: 1},
 		{Edits: 1, Limit: 0, Classes: two, Flaky: []string{"c"}, CP: "None"},
 		{Edits: 1, Limit: 0, Classes: []string{"ready"}, Flaky: []string{}, Pauses: 2},
-		{Edits: 1, Limit: 0, Classes: two, Flaky: []string{"a", "b"}, Races: 1}}
+		{Edits: 1, Limit: 0, Classes: []string{"ready"}, Flaky: []string{}, Races: 1}}
 	if !quick {
+		out = append(out, scenario{Edits: 1, Limit: 0, Classes: two, Flaky: []string{"a", "b"}, Races: 1})
 		out = append(out, scenario{Edits: 2, Limit: 1, Classes: two, Flaky: []string{"a"}, CP: "None"}, scenario{Edits: 2, Limit: 0, Classes: []string{"ready"}, Flaky: []string{}, CP: "IfNoController"})
 		out = append(out, scenario{Edits: 2, Limit: 0, Classes: []string{"ready"}, Flaky: []string{}}, scenario{Edits: 1, Limit: -1, Classes: two}, scenario{Edits: 2, Limit: 0, Classes: two, Flaky: []string{"a"}}, scenario{Edits: 2, Limit: 1, Classes: two, Flaky: []string{"b", "c"}})
 	}
